@@ -149,7 +149,10 @@ fn quiet<F: FnOnce() -> R, R>(f: F) -> Option<R> {
 
 fn step(w: &mut W, r: &mut Prng, stats: &mut Stats) -> String {
     let n = w.accts.len();
-    let kind = r.below(100);
+    let mut kind = r.below(100);
+    if !w.paychs.is_empty() && r.chance(10) {
+        kind = 82; // use a payment channel
+    }
     let c = |name: &str, code: u32, stats: &mut Stats| stats.op(name, code);
     match kind {
         0..=9 => {
@@ -265,7 +268,7 @@ fn step(w: &mut W, r: &mut Prng, stats: &mut Stats) -> String {
         }
         80..=84 => {
             // create a payment channel or use one
-            if w.paychs.is_empty() || r.chance(30) {
+            if w.paychs.is_empty() || (w.paychs.len() < 3 && r.chance(20)) {
                 let (fi, ti) = (4 + r.below(2) as usize, 6 + r.below(2) as usize);
                 let params = fil_actor_init::ExecParams {
                     code_cid: *PAYCH_ACTOR_CODE_ID,
